@@ -69,6 +69,7 @@ P = {
 
 def main():
     env = dict(os.environ, VERIF_ROOT=ROOT)
+    subprocess.run([os.path.join(ROOT, "setup.sh")], check=True, stdout=subprocess.DEVNULL)
     built = subprocess.run([os.path.join(ROOT, "bin", "mc"), "list", "x"], capture_output=True, text=True, env=env).stdout.split()
     skip = set(os.environ.get("VERIF_UNCLAIM", "").split())
     checks, na = [], []
